@@ -66,6 +66,8 @@ type w1Cfg struct {
 	DropPm          int  `json:"pubsub_drop_pm"`
 	DupPm           int  `json:"pubsub_dup_pm"`
 	DelayPm         int  `json:"pubsub_delay_pm"`
+	SubFailPm       int  `json:"broker_subscribe_fail_pm"`
+	UnsubFailPm     int  `json:"broker_unsubscribe_fail_pm"`
 	SettleMs        int  `json:"settle_ms"`
 	ShutdownAtEnd   bool `json:"shutdown_at_end"`
 }
@@ -197,9 +199,20 @@ type w1World struct {
 	pubsub *w1PubSub
 	shutdownDone bool
 	shutdownRet  int64
+	pendingAsync int
+	preRun       func(n *Node) // cluster world: install shared broker / controller before Run
+	seqSrc       *int64       // cluster world: one event counter for all nodes
+	nodeCfg      func(c *Config)
 }
 
-func (w *w1World) next() int64 { w.seq++; return w.seq }
+func (w *w1World) next() int64 {
+	if w.seqSrc != nil {
+		*w.seqSrc++
+		return *w.seqSrc
+	}
+	w.seq++
+	return w.seq
+}
 
 // ---------------------------------------------------------------- transport
 
@@ -569,13 +582,20 @@ func (w *w1World) setup() error {
 			return ChannelBatchConfig{}
 		}
 	}
+	if w.nodeCfg != nil {
+		w.nodeCfg(&nc)
+	}
 	node, err := New(nc)
 	if err != nil {
 		return err
 	}
 	w.node = node
-	if cfg.DropPm > 0 || cfg.DupPm > 0 || cfg.DelayPm > 0 {
-		w.pubsub = &w1PubSub{w: w, inner: node.broker.(*MemoryBroker)}
+	if w.preRun != nil {
+		w.preRun(node)
+	} else {
+		// the seam between broker and node: records broker subscriptions, can fail
+		// Subscribe/Unsubscribe and drop/duplicate/delay PUB/SUB deliveries
+		w.pubsub = &w1PubSub{w: w, inner: node.broker.(*MemoryBroker), subscribed: map[string]int{}}
 		node.SetBroker(w.pubsub)
 	}
 	node.OnConnecting(func(ctx context.Context, e ConnectEvent) (ConnectReply, error) {
@@ -615,10 +635,12 @@ func (w *w1World) setup() error {
 				rerr = ErrorPermissionDenied
 			}
 			if delay > 0 {
+				w.pendingAsync++
 				w.s.Go(func() {
 					w.s.Sleep(time.Duration(delay) * time.Microsecond)
 					w.s.Probe("async_subscribe_cb")
 					cb(reply, rerr)
+					w.pendingAsync--
 				})
 				return
 			}
@@ -695,17 +717,42 @@ func (cl *w1SimClient) accept() bool {
 // the delivery of publications to the node (PUB/SUB) can be dropped, duplicated or
 // delayed (which also reorders) for positioned channels.
 type w1PubSub struct {
-	w     *w1World
-	inner *MemoryBroker
-	node  BrokerEventHandler
+	w          *w1World
+	inner      *MemoryBroker
+	node       BrokerEventHandler
+	subscribed map[string]int // channel -> number of successful Subscribe minus Unsubscribe calls
 }
 
 func (b *w1PubSub) RegisterBrokerEventHandler(h BrokerEventHandler) error {
 	b.node = h
 	return b.inner.RegisterBrokerEventHandler(b)
 }
-func (b *w1PubSub) Subscribe(ch ...string) error   { return b.inner.Subscribe(ch...) }
-func (b *w1PubSub) Unsubscribe(ch ...string) error { return b.inner.Unsubscribe(ch...) }
+func (b *w1PubSub) Subscribe(ch ...string) error {
+	if b.w.s.Chance(b.w.sc.Cfg.SubFailPm) {
+		b.w.s.Fault("broker_subscribe_error")
+		return errors.New("sim broker subscribe error")
+	}
+	for _, c := range ch {
+		b.subscribed[c] = 1 // Broker.Subscribe and Unsubscribe are idempotent set operations
+		b.w.s.Event("broker subscribe %s", c)
+	}
+	return b.inner.Subscribe(ch...)
+}
+func (b *w1PubSub) Unsubscribe(ch ...string) error {
+	if b.w.s.Chance(b.w.sc.Cfg.UnsubFailPm) {
+		b.w.s.Fault("broker_unsubscribe_error")
+		return errors.New("sim broker unsubscribe error")
+	}
+	for _, c := range ch {
+		b.subscribed[c] = 0
+		b.w.s.Event("broker unsubscribe %s", c)
+		// C26: the node must not leave the broker channel while it has local subscribers
+		if n := b.w.node.hub.NumSubscribers(c); n > 0 {
+			b.w.s.Violate("C26", "unsubscribed-with-subscribers", "broker unsubscribe while the channel has local subscribers", "Broker.Unsubscribe(%s) succeeded while %d local subscribers exist", c, n)
+		}
+	}
+	return b.inner.Unsubscribe(ch...)
+}
 func (b *w1PubSub) Publish(ch string, data []byte, opts PublishOptions) (PublishResult, error) {
 	return b.inner.Publish(ch, data, opts)
 }
@@ -897,6 +944,11 @@ func w1Run(s *simrt.Sim, script any, prop string) {
 	if settle == 0 {
 		settle = 8 * time.Second
 	}
+	// settled = no asynchronous handler completion outstanding, then the settle time
+	// (unsubscribe wait gate 5 s, deferred broker unsubscribe 1 s + retries, batching)
+	for i := 0; i < 20 && w.pendingAsync > 0; i++ {
+		s.Sleep(time.Second)
+	}
 	s.Sleep(settle)
 	w.checkSettled()
 	// end: close every remaining connection, settle, check that nothing survives
@@ -950,6 +1002,7 @@ var w1Flavours = map[string][]string{
 	"C09": {"_", "p_", "ejJ_", "r_"},
 	"C11": {"_", "_", "p_", "jJ_"},
 	"C36": {"_", "e_"},
+	"C26": {"_", "p_", "_", "e_"},
 	"C37": {"_", "p_"},
 }
 
@@ -977,6 +1030,10 @@ func w1Gen(c *simrt.Choice, prop, tier string) any {
 	}
 	if prop == "C37" {
 		cfg.ChannelLimit = 1 + c.Intn(3)
+	}
+	if prop == "C26" {
+		cfg.SubFailPm = []int{0, 100, 300}[c.Intn(3)]
+		cfg.UnsubFailPm = []int{0, 200, 300}[c.Intn(3)]
 	}
 	cfg.SettleMs = 8000
 	fl := w1Flavours[prop]
@@ -1193,7 +1250,7 @@ func init() {
 			return r.Probes["nontrivial:"+prop] > 0
 		},
 	})
-	for _, p := range []string{"C04", "C05", "C10", "C01", "C06", "C07", "C08", "C09", "C11"} {
+	for _, p := range []string{"C04", "C05", "C10", "C01", "C06", "C07", "C08", "C09", "C11", "C26"} {
 		simrt.Claim(p, "w1", 10)
 	}
 }
